@@ -42,6 +42,21 @@ CHECKS = {
  "C19": dict(design="4/C19", technique="TLA+ unit algebra on exponent pairs decided by TLC for all ordered triples of the 26 units + TLC-printed expectation per convertible pair replayed into statically typed WithUnit shapes, #[metrics(unit=..)] structs and dynamic stacks; exact rational oracle, 4 ulp",
    text="TLC decides inverse, composition, scale preservation, declared unit name, string/mismatch => error for every ordered pair/triple; the real conversion of every one of the 435 pairs (Unsigned, Floating, Repeated; round trips; Duration for all time pairs) and of Option/Distribution/Mean/Box shapes, #[metrics(unit)] fields and unit-carrying wrapper stacks are compared with TLC's exponents in exact arithmetic.",
    note="numbers on representatives {0,1,3,1e15,2^63,1e-9}, 4 ulp; container shapes on a 55-pair subset; Custom units and Count/Percent as sources not convertible by type, not exercised"),
+ "C07": dict(design="4/C07", technique="TLA+ path model of the documented #[metrics] naming function (TLC: every root-to-leaf attribute path within bounds) + generated-program conformance: TLC's chains are compiled into Rust types with the real macro against the working tree and every emitted item / sample-group pair is compared with TLC's expected string",
+   text="TLC enumerates every path through struct trees of depth <=3 (12 container variants x 3 flatten-prefix kinds x Option edges per level, 11 leaf kinds), entry enums at the root and flattened into a struct (tag variants, struct/tuple/unit variants, variant renames) and computes the final emitted name, kind, unit, value class and sample-group pair of each path, incl. chains over the 100-byte const-string limit; the paths are compiled through the real #[metrics] macro (16/48 compilation units) and the recorded EntryWriter output must equal TLC's expectation item by item: exactly one item per present field, nothing for ignored or absent ones.",
+   note="identifiers restricted to lowercase snake-case / PascalCase words; quick binds depth <=2 exhaustively plus seeded samples of depth-3 chains and nested enums, thorough binds depth 3 exhaustively; known finding C07:sample-group-flatten-prefix; ignore inside enum struct variants not bound (macro compile failure)"),
+ "C10": dict(design="4/C10", technique="TLC model checking of Aggregation.tla (declarative Expected(log) vs incremental accumulators) and Worker.tla (refines WorkerAbs.tla, liveness under fairness) + exhaustive history replay into 6 sink arrangements + TLC trace validation of multi-producer WorkerSink executions",
+   text="TLC proves for every history of merges, flushes and merge-on-drop guards within the constants that each flush emits exactly one aggregate per distinct key containing exactly the inputs merged since the previous flush (sum, bag, keep-last) under three key functions, and that the worker loop refines the flush barrier and terminates with everything emitted once its handles are gone; every history up to depth 5 (6 thorough) is replayed into KeyedAggregator, MutexSink<Aggregate> with both guard kinds, WorkerSink and TeeSink and compared at every flush; recorded multi-producer runs are checked event by event.",
+   note="small scope (2-3 keys, 2-3 value symbols, <=6 operations exhaustively); timed flushes only in recorded runs; worker termination observed with a 10 s budget"),
+ "C11": dict(design="4/C11", technique="TLC decides the 976-bucket layout in exponent arithmetic and count conservation under all interleavings (Histogram.tla, HistLayout.tla) + replay of every bucket boundary/neighbour/midpoint and all Rec/Drain/Merge behaviours into the real histograms",
+   text="TLC decides value->index vs index->range, partition, |mid-s| <= width/2 <= s/32 and the fixed point for all 976 buckets, and count conservation, quiescent drain, ascending RLE and merge fixed point under all interleavings of <=3 recorders with a bucket-by-bucket drain; every bucket boundary, neighbour and midpoint is replayed into the real Histogram/SharedHistogram through all sources and strategies, plus all Rec/Drain/Merge behaviours to depth 4/5 and 8x1e5 concurrent adds; comparison in exact rationals.",
+   note="the 6.25% bound for values that are not representatives rests on monotonicity inside a bucket; values >= 2^43 only feed MODEL-DRIFT"),
+ "C12": dict(design="4/C12", technique="TLA+ with exact rationals (Sampling.tla, SamplingGrid.tla) checked by TLC + replay into real FixedFractionSample / SampledEmf / CongressSample under a scripted RNG through add-only accessors",
+   text="TLC decides the n/alpha split for every reduced rate p/q with q <= 64/128, edge rates, symbolic powers of two (saturation) and the four congress invariants for every volume history in the box (<=3 groups, <=4 intervals, 11 for TTL); emit/skip, forwarded rate, EMF weights and congress rates of the real code are compared with TLC's rationals under a scripted RNG.",
+   note="'every representable f32 rate' is covered on the rational grid, edges, all powers of two and seeded random floats, not all 2^30; above 2^53 the weight is judged against the f64 value of 1/rate; tolerances stated in the evidence"),
+ "C17": dict(design="4/C17", technique="TLC model checking of GlobalSink.tla and GlobalSinkRace.tla (refines GlobalDetach.tla) + exhaustive routing-history replay with probe matrix into real global_entry_sink! globals + TLC trace validation of append-vs-attach/detach races",
+   text="TLC proves for every operation history within the constants that routing is first-of(thread-local, runtime, attached), that a panicking install/attach changes nothing and never poisons, that guard/handle drops fall back to the next destination and that a detach flushes what the sink accepted; the lock-level model refines the concurrent property layer for every interleaving; the real macro is bound by executing every routing history up to depth 5 (6 thorough), each followed by appends from every thread x runtime context with TLC's destination matrix as oracle, and by validating recorded races against GlobalDetach.",
+   note="small scope (2 threads, 2 runtimes, one fresh sink per install); ServiceMetrics only as an instance of the macro; handle drops observed with a 10 s budget"),
 }
 NOT_YET = {}
 
